@@ -20,7 +20,7 @@ from .. import session_driver as sd
 from ..session_replay import SessionReplayer
 
 LEVEL = "fault_enumeration"
-VAC = ["EnterTempParamsAmp", "EnterTempParamsVM", "EnterMask", "EnterTempUsedRes", "EnterGlsOne", "EnterTempConfig",
+VAC = ["EnterTempParamsAmp", "EnterTempParamsVM", "EnterMask", "EnterTempUsedRes", "EnterGlsOne", "EnterTempConfig", "EnterTempVar", "InnerSetParam",
        "StartPartialWeight", "StartInterference", "StartFitFractions", "StartFactorIteration", "CompStep", "ExitNormal", "Raise", "Abandon"]
 
 
@@ -69,8 +69,24 @@ def walk(ctx, rep, label, depth, max_stack, budget, rng, observers, found, check
                 cand.append((u, v, lab))
     total = len(cand)
     if len(cand) > budget:
-        rng.shuffle(cand)
-        cand = cand[:budget]
+        # stratified seeded sample over (action, open block kinds, abstract model context)
+        groups = {}
+        for e in cand:
+            st = nodes[e[0]]
+            m = st["m"]
+            sig = (e[2][0], tuple(f["kind"] for f in st["stack"]), len(set(m["sel"])) < 3, bool(m["bnd"]), m["maskv"] != "None",
+                   bool(m["maskFactor"]), bool(m["polar"]), bool(st["seen"]))
+            groups.setdefault(sig, []).append(e)
+        keys = sorted(groups, key=repr)
+        for k in keys:
+            rng.shuffle(groups[k])
+        picked = []
+        while len(picked) < budget and any(groups[k] for k in keys):
+            for k in keys:
+                if groups[k] and len(picked) < budget:
+                    picked.append(groups[k].pop())
+        cand = picked
+        ctx.part("graph_walk_%s" % label, strata=len(keys))
     t0 = time.time()
     n = 0
     for u, v, lab in cand:
